@@ -414,7 +414,7 @@ Proof.
   - intros _. apply Forall2_replace_nth; [|exact IH]. intros x Hx. apply doc_eq_refl. apply Hc. exact Hx.
   - intro Ht. destruct (O Ht) as [_ Hk]. apply (Forall2_both mrel). apply Forall2_replace_nth.
     + intros x Hx. split; [eapply keyed_key_some; eassumption|]. split; [reflexivity|]. apply doc_eq_refl. apply Hc. exact Hx.
-    + rewrite (key_put _ _ _ _ S K1), (key_put _ _ _ _ S K2). split; [|split; [reflexivity | exact IH]].
+    + unfold mrel. rewrite (key_put _ _ _ _ S K1), (key_put _ _ _ _ S K2). split; [|split; [reflexivity | exact IH]].
       eapply keyed_key_some; [exact Hk | eapply nth_error_In; exact N].
 Qed.
 
